@@ -182,6 +182,7 @@ type world struct {
 	modErc20 common.Address
 	exCache  string
 	exDirty  bool
+	lastObs  []obsEvent // `observation` events of the last routed message
 	touched  map[common.Address]bool // bridge-call targets whose claim was ever parked
 	touchedCode map[common.Address]bool // bridge-call targets that carry code
 	former      map[int][]int           // oracle id -> bridger ids it was registered with earlier (edit-bridger, unbond)
@@ -317,22 +318,74 @@ func (w *world) route(m sdk.Msg, skipVB ...bool) (res string, err error) {
 		}
 	}
 	cctx, write := w.s.Ctx.CacheContext()
+	var evs sdk.Events
 	r := hx.Try(func() error {
 		if eb, ok := m.(*crosschaintypes.MsgEditBridger); ok && len(skipVB) > 0 {
 			// the SDK's routed handler runs ValidateBasic itself; go to the chain's message server
 			_, err = crosschainkeeper.NewMsgServerImpl(w.k).EditBridger(cctx, eb)
 			return nil
 		}
-		_, err = w.s.App.MsgServiceRouter().Handler(m)(cctx, m)
+		var sres *sdk.Result
+		sres, err = w.s.App.MsgServiceRouter().Handler(m)(cctx, m)
+		if sres != nil {
+			evs = sres.GetEvents()
+		}
 		return nil
 	})
 	if strings.HasPrefix(r, "panic") {
 		return r, errors.New(r)
 	}
+	w.lastObs = w.lastObs[:0]
 	if err == nil {
+		// `observation` events emitted by the handler (one per event nonce that took effect): nonce / claim hash / handler success
+		for _, ev := range evs {
+			if ev.Type != crosschaintypes.EventTypeContractEvent {
+				continue
+			}
+			var oe obsEvent
+			for _, a := range ev.Attributes {
+				switch a.Key {
+				case crosschaintypes.AttributeKeyEventNonce:
+					oe.nonce, _ = strconv.ParseUint(a.Value, 10, 64)
+				case crosschaintypes.AttributeKeyClaimHash:
+					oe.hash = a.Value
+				case crosschaintypes.AttributeKeyStateSuccess:
+					oe.ok = a.Value == "true"
+				case sdk.AttributeKeyModule:
+					oe.module = a.Value
+				}
+			}
+			if oe.module == w.chain {
+				w.lastObs = append(w.lastObs, oe)
+			}
+		}
 		write()
 	}
 	return classify(err), err
+}
+
+type obsEvent struct {
+	nonce  uint64
+	hash   string
+	ok     bool
+	module string
+}
+
+// evLine: the event nonce / claim-hash id the op made take effect, from the emitted `observation` events ("-" if none);
+// the model prints the entry its step appended to the observation log.
+func (w *world) evLine() string {
+	if len(w.lastObs) == 0 {
+		return "-"
+	}
+	var xs []string
+	for _, e := range w.lastObs {
+		id, ok := w.hashID[e.hash]
+		if !ok {
+			id = 900000
+		}
+		xs = append(xs, fmt.Sprintf("%d/%d", e.nonce, id))
+	}
+	return strings.Join(xs, "+")
 }
 
 // ---------------------------------------------------------------------------------------------------------
@@ -443,9 +496,11 @@ func (w *world) observe() string {
 	for _, p := range hx.RawPrefix(ctx, w.key, crosschaintypes.PendingExecuteClaimKey) {
 		pend = append(pend, strconv.FormatUint(sdk.BigEndianToUint64(p[0][1:]), 10))
 	}
-	return fmt.Sprintf("lo=%d tp=%s ln=%s or=%s bb=%s be=%s prop=%s atts=%s pend=%s ex=%s",
+	ev := w.evLine()
+	w.lastObs = w.lastObs[:0]
+	return fmt.Sprintf("lo=%d tp=%s ln=%s or=%s bb=%s be=%s prop=%s atts=%s pend=%s ex=%s ev=%s",
 		w.k.GetLastObservedEventNonce(ctx), w.k.GetLastTotalPower(ctx).String(), joinOr(ln, ","), joinOr(ors, ","), joinOr(bb, ","),
-		joinOr(be, ","), joinOr(prop, ","), joinOr(at, ";"), joinOr(pend, ","), w.effectsLine())
+		joinOr(be, ","), joinOr(prop, ","), joinOr(at, ";"), joinOr(pend, ","), w.effectsLine(), ev)
 }
 
 // effects measures, on the real state, how many times the deferred effects of every event nonce are in force:
@@ -803,6 +858,25 @@ func (w *world) opClaim(wrapper, inner int, n, h uint64, kind string) string {
 		}
 		if bz := w.s.Ctx.KVStore(w.key).Get(crosschaintypes.GetLastEventNonceByOracleKey(oa)); sdk.BigEndianToUint64(bz) != n {
 			w.violate("C01", fmt.Sprintf("accepted claim for nonce %d did not move the oracle's last event nonce to it", n))
+		}
+	}
+	// event level: an event nonce takes effect at most once per message, exactly when the last observed nonce moved, and
+	// it is the next nonce
+	{
+		lo2 := w.k.GetLastObservedEventNonce(w.s.Ctx)
+		if len(w.lastObs) > 1 {
+			w.violate("C01", fmt.Sprintf("one claim message made %d events take effect (observation events)", len(w.lastObs)))
+		}
+		for _, e := range w.lastObs {
+			if e.nonce != w.prevLo+1 {
+				w.violate("C01", fmt.Sprintf("observation event for event nonce %d while the last observed nonce was %d (out of order)", e.nonce, w.prevLo))
+			}
+			if !e.ok {
+				w.out.Count("observed:handler-failed")
+			}
+		}
+		if (lo2 != w.prevLo) != (len(w.lastObs) > 0) {
+			w.violate("C01", fmt.Sprintf("last observed nonce moved %d -> %d with %d observation events", w.prevLo, lo2, len(w.lastObs)))
 		}
 	}
 	if res == "err:validate-basic" && wrapper != inner {
